@@ -577,6 +577,60 @@ class C07(core.PropertyCheck):
             return None, None
         return uses, unres
 
+    # ---- references inside the project's banners ----
+    def extra_checks(self, tier, rng):
+        """A banner declared in snooty.toml is put on the pages it targets: a `|name|` in its text is a reference in built output like any
+        other - filled from the project's substitutions, or reported when nothing defines it. Real projects on disk (configuration,
+        parser, postprocessor through Project.build)."""
+        from pathlib import Path
+        from snooty.util_test import make_test
+        viol, n_ = [], 0
+        for k in range(3 if tier == "quick" else 12):
+            known, unknown = rng.choice(["product", "prod-name", "p1"]), rng.choice(["nosuch", "undefined-one"])
+            value = rng.choice([f"Use |{known}| now", f"|{known}| is here", f"Use |{known}| and |{unknown}| now", f"See |{unknown}|"])
+            target = rng.choice(["*", "index.txt", "guides/*"])
+            toml = (f'name = "c07"\ntitle = "T"\n\n[substitutions]\n"{known}" = "MongoDB{k}"\n\n[[banners]]\ntargets = ["{target}"]\n'
+                    f'variant = "info"\nvalue = "{value}"\n')
+            files = {Path("snooty.toml"): toml,
+                     Path("source/index.txt"): "=====\nIndex\n=====\n\nText.\n\n.. toctree::\n\n   /guides/a\n",
+                     Path("source/guides/a.txt"): "=====\nGuide\n=====\n\nMore text.\n"}
+            case = {"kind": "banner", "toml": toml}
+            n_ += 1
+            try:
+                with make_test(files, name="c07") as result:
+                    pages = {fid.as_posix(): pg.ast.serialize() for fid, pg in result.pages.items()}
+                    diags = {fid.as_posix(): [type(d).__name__ for d in ds] for fid, ds in result.diagnostics.items()}
+            except Exception as e:
+                viol.append({"case": case, "desc": f"banner: building the project raised {type(e).__name__}: {e}"[:300], "key": "banner:raised"})
+                break
+            refs = []
+
+            def walk(x, page, inside):
+                if isinstance(x, dict):
+                    inside = inside or (x.get("type") == "directive" and x.get("name") == "banner")
+                    if inside and x.get("type") == "substitution_reference":
+                        text_ = json.dumps(x.get("children"))
+                        refs.append((page, x.get("name"), "MongoDB" in text_))
+                    for v in x.values():
+                        walk(v, page, inside)
+                elif isinstance(x, list):
+                    for v in x:
+                        walk(v, page, inside)
+            for page, doc in pages.items():
+                walk(doc, page, False)
+            desc = None
+            for page, name, filled in refs:
+                if name == known and not filled:
+                    desc = f"banner: the reference |{known}| in the banner put on {page} is empty although snooty.toml defines it"
+                elif name == unknown and "SubstitutionRefError" not in (diags.get(page) or []) and "SubstitutionRefError" not in (diags.get("snooty.toml") or []):
+                    desc = f"banner: the reference |{unknown}| in the banner put on {page} is defined nowhere and nothing is reported (diagnostics {diags})"
+                if desc:
+                    break
+            if desc:
+                viol.append({"case": case, "impl": {"refs": refs, "diags": diags}, "desc": desc, "key": "banner"})
+                break
+        return viol, {"banner_references": n_}
+
     def finding_key(self, case, impl, desc):
         return case["kind"] + ":" + re.split(r"[:\[{]", desc)[0].strip()
 
